@@ -25,62 +25,59 @@ PROPS = {
     ),
     "C04": dict(
         design_ref="DESIGN.md 7 C04",
-        technique="contract-based deductive verification (PyVC + z3) of the flag helpers and the flag/sequence name mapping, whole-view postconditions; bounded exhaustive oracle as cross-check",
+        technique="contract-based deductive verification (PyVC + z3) of Mailbox.store (nested loop invariants, whole-view postconditions for +FLAGS / -FLAGS / FLAGS), the flag helpers it is built from, the flag/sequence name mapping, append's initial flags and the persistence of flags in commit_to_db; bounded exhaustive oracle as cross-check",
         category="other",
         text="Mailbox._help_add_flag/_help_remove_flag/_help_replace_flags/msg_sequences are proved against exact whole-table postconditions over the symbolic sequences dict "
              "(every other message and every other sequence unchanged; Seen/unseen kept complementary for the touched message; \\Recent preserved by FLAGS replacement), and "
              "constants.flag_to_seq/seq_to_flag against the system-flag table. Two genuine defects (F05 keyword atoms aliasing system sequences, F06 case-sensitive system flags) are "
              "recorded as known findings; the obligations are proved for every input outside those two characterised classes. Proved since: Mailbox.store itself - for every message set of existing positions, every flag list (repetitions allowed) and each of +FLAGS / -FLAGS / FLAGS, the flags of exactly the addressed messages change to exactly what the command says (\\Seen and the MH `unseen` sequence kept complementary, \\Recent never touched, STORE of \\Recent refused with NO and nothing changed), .mh_sequences is rewritten to the same content, the change is committed (ghost rows) and one FETCH is produced per message; nested loop invariants over the real loops, composed from the three helper contracts.",
-        note="Level is 'other' while known findings are open. Mailbox.store/fetch tail/append and notification delivery are not yet under contract (clauses d-g of DESIGN C04). Trusted: z3, PyVC encoding.",
+        note="Level is 'other' while known findings are open (F05, F06: excluded from store's and append's contracts by an explicit precondition on keyword atoms). The FETCH that sets \\Seen and the cross-session delivery of the resulting FETCH notifications are covered by _dispatch's per-session contract only. Trusted: z3, PyVC encoding, Mailbox._generate_fetch_msg_for (string builder).",
         assumptions=["z3 sound", "PyVC encoding (DESIGN 2.2): defaultdict(set) reads insert the default; set/dict iteration order arbitrary"],
-        not_decided="store()/fetch()/append() call sites and cross-session notification (clauses d-g) are not decided yet",
+        not_decided="fetch() setting \\Seen and the cross-session FETCH notification of flag changes beyond _dispatch's per-session contract; flag-name aliasing and case (known findings F05, F06)",
     ),
     "C10": dict(
         design_ref="DESIGN.md 7 C10",
-        technique="contract-based deductive verification (PyVC + z3) of the admission relation Mailbox.would_conflict and intersect, loop invariants over the executing-task list; bounded exhaustive oracle",
+        technique='contract-based deductive verification (PyVC + z3) of the admission relation Mailbox.would_conflict and intersect (loop invariants over the executing-task list) and of the release-before-queue ordering in Mailbox.copy (second contract, cut at the queueing point); bounded exhaustive oracle',
         category="other",
         text="Mailbox.would_conflict is proved, for every command kind, peek bit, message sets and any list of executing commands, to admit a command only if it does not have to be serialised "
              "against an executing one (structure writers run alone; flag writers never overlap a SEARCH), to admit everything when nothing executes, and never to refuse status-only commands "
              "unless a structure writer executes. This is clause (a) of the property; interleaving-level clauses are not decided here. Proved since (second contract on Mailbox.copy, verified up to the point where it queues on the destination): when COPY/MOVE starts to wait for the destination mailbox, the command has already been marked completed on the source and waits with a fresh command object - two opposite-direction copies therefore never hold one mailbox while waiting for the other.",
-        note="Partial: clauses (b)-(e) (stale resolution, lock order, wake-ups, linearizability of whole responses) are not yet under contract; a change that breaks them is not detected by this check. Trusted: z3, PyVC encoding, IMAPClientCommand.qstr.",
+        note='Partial: clauses (b), (d), (e) (stale resolution, deadlock freedom in general, linearizability of whole responses) are not under contract; of (c) only the release-before-queue ordering of COPY/MOVE is. Trusted: z3, PyVC encoding, IMAPClientCommand.qstr, aiofiles / MH.get_bytes in the copy loop.',
         assumptions=["z3 sound", "PyVC encoding (DESIGN 2.2)", "STORE and the FETCH tail update flags in one atomic asyncio segment (no await inside the update loops)"],
         not_decided="(b) stale resolution, (c) COPY/MOVE steps, (d) deadlock freedom, (e) linearizability",
     ),
     "C05": dict(
         design_ref="DESIGN.md 7 C05",
-        technique="contract-based deductive verification (PyVC + z3) of Mailbox.expunge with inductive loop invariants (all three cases); real-folder oracle and end-to-end UID EXPUNGE witness as bounded cross-check",
+        technique="contract-based deductive verification (PyVC + z3) of Mailbox.expunge with inductive loop invariants (all three cases), of do_expunge's UID restriction (call-site assertions), of copy's message-set expansion and of append; real-folder oracle and end-to-end UID EXPUNGE witness as bounded cross-check",
         category="other",
         text="Mailbox.expunge is proved, for all mailbox contents, Deleted sets and UID lists, to remove exactly the messages the property names (EXPUNGE: the \\Deleted ones; UID EXPUNGE: those also in the UID set, "
              "an empty set removing nothing; MOVE's forced expunge: exactly the listed UIDs), keeping order, every surviving key/UID pair, next_uid and uid_vv, rebuilding the index maps, "
              "removing the deleted keys from every sequence and deleting exactly those files (ghost disk set). The repaired defect (UID EXPUNGE used sequence numbers as UIDs) is listed as fixed.",
-        note="Partial: copy/append/do_move/do_close/do_store EXAMINE frame and 'refused commands change nothing' are not yet under contract. Assumed contracts: MH.aremove (A-MH), "
-             "_dispatch_or_pend_notifications and commit_to_db change no list/sequence state; exclusivity of the running EXPUNGE across its awaits (C10 admission) is assumed, not re-proved here.",
+        note="Partial: the copy itself (after the message-set expansion), do_move, do_close and 'refused commands change nothing' are not under contract. Assumed contracts: MH.aremove (A-MH); exclusivity of the running EXPUNGE across its awaits (C10 admission) is assumed, not re-proved here.",
         assumptions=["z3 sound", "PyVC encoding (DESIGN 2.2)", "A-MH: MH.remove deletes exactly one message file", "writer exclusivity across awaits inside expunge (other tasks do not touch the mailbox while a CONFLICTING command runs)",
                      "Mailbox invariant Inv.1-5 at entry (DESIGN 6.2)"],
         not_decided="COPY/MOVE/APPEND additions, EXAMINE frame, refused-command frame",
     ),
     "C02": dict(
         design_ref="DESIGN.md 7 C02",
-        technique="contract-based deductive verification (PyVC + z3) of the UID allocation core (check_new_msgs_and_flags) and of expunge as invariant-preserving operations; real-folder oracle as bounded cross-check",
+        technique='contract-based deductive verification (PyVC + z3) of the UID allocation core (check_new_msgs_and_flags), of expunge and of append (rely/guarantee at its awaits for the delivery agent of E1) as invariant-preserving operations, and of get_next_uid_vv; real-folder oracle as bounded cross-check',
         category="other",
         text="Mailbox.check_new_msgs_and_flags is proved, for all mailbox states satisfying the representation invariant and all external deliveries (assumption E1), to keep the existing UID list as a prefix, "
              "to give new messages the consecutive UIDs old next_uid, old next_uid+1, ..., to advance next_uid by exactly that count (never lowering it), to leave uid_vv alone and to re-establish the invariant "
              "(UIDs strictly ascending and all below next_uid). Mailbox.expunge is proved to keep every surviving key/UID pair, order, next_uid and uid_vv. History-freshness of UIDs follows by induction over operations (DESIGN 2.7).",
-        note="Partial: append/copy (APPENDUID/COPYUID), rename-inbox allocation, get_next_uid_vv/delete/_restore_from_db (UIDVALIDITY), selected()/STATUS reporting and the persistence codec are not yet under contract. "
-             "Assumed contracts on callees are listed in the evidence (trusted_base).",
+        note="Partial: copy (COPYUID), rename-inbox allocation, delete (UIDVALIDITY of a recreated mailbox) and selected()/STATUS reporting of UIDNEXT are not under contract (selected's EXISTS is, C01). Assumed contracts on callees are listed in the evidence (trusted_base).",
         assumptions=["z3 sound", "PyVC encoding (DESIGN 2.2)", "E1: external agents only add larger-numbered files (stated as set, list-prefix and cardinality facts)", "A-MH contracts for MH.keys/get_sequences/set_sequences/remove",
                      "writer exclusivity across awaits (management task runs the resync with no executing command)"],
         not_decided="UIDVALIDITY clauses, APPENDUID/COPYUID, restart/crash behaviour (C11/C12)",
     ),
     "C13": dict(
         design_ref="DESIGN.md 7 C13",
-        technique="contract-based deductive verification (PyVC + z3) of check_new_msgs_and_flags (delivery post-condition) and of expunge's on-disk sequence post-condition over a ghost model of the MH folder; real-folder oracle as bounded cross-check",
+        technique="contract-based deductive verification (PyVC + z3) of check_new_msgs_and_flags (delivery post-condition), of expunge's and store's on-disk sequence post-conditions over a ghost model of the MH folder; real-folder oracle as bounded cross-check",
         category="other",
         text="For all mailbox states and all deliveries allowed by E1, check_new_msgs_and_flags is proved to append exactly the new files in ascending order, to give each \\Recent, \\Seen exactly when the agent did not list it in "
              "`unseen`, and otherwise exactly the agent's sequences, to leave every existing message's flags untouched and to write .mh_sequences equal to the in-memory flags. expunge is proved to delete exactly the removed files "
              "and (after the recorded fix) to leave no removed key in .mh_sequences, so a reused number inherits nothing.",
-        note="Partial: store/fetch/append/copy's .mh_sequences post-conditions, the mtime shortcut and the management-task polling (announcement to every selected session) are not yet under contract. "
-             "The folder is a ghost model (set of keys + sequences) updated by assumed contracts of mailbox.MH (A-MH).",
+        note="Partial: copy's .mh_sequences write, the mtime shortcut and the management-task polling (announcement to every selected session) are not under contract; store and append are. The folder is a ghost model (set of keys + sequences) updated by assumed contracts of mailbox.MH (A-MH).",
         assumptions=["z3 sound", "PyVC encoding (DESIGN 2.2)", "E1 (see C02)", "A-MH: contracts of MH.keys/get_sequences/set_sequences/remove", "writer exclusivity across awaits"],
         not_decided="announcement to every selected session (C01), mtime granularity, inactive-mailbox checks in user_server",
     ),
@@ -119,7 +116,7 @@ PROPS = {
         note="Partial: AND/OR use asyncio.TaskGroup and `except*` (outside the subset) and the header/body/date keys depend on the email package (A-EMAIL): they are covered only by the bounded reference oracle "
              "(harness.e2e:SearchExact, ~200 programs). IMAPSearch.match's dynamic dispatch is an assumed contract.",
         assumptions=["z3 sound", "PyVC encoding (DESIGN 2.2)", "IMAPSearch.match dispatches to _match_<op> (getattr) and keeps SearchContext caches coherent", "A-EMAIL renderer determinism"],
-        not_decided="(g) header/body/text/sent-date keys; AND/OR beyond the bounded oracle; do_search formatting",
+        not_decided='(g) header/body/text keys; AND/OR composition beyond the bounded oracle; do_search formatting',
     ),
     "C09": dict(
         design_ref="DESIGN.md 7 C09",
@@ -137,29 +134,27 @@ PROPS = {
     ),
     "C01": dict(
         design_ref="DESIGN.md 7 C01",
-        technique="contract-based deductive verification (PyVC + z3) of the notification kernel: per-session delivery contract of _dispatch_or_pend_notifications, call-site assertions on every EXPUNGE/EXISTS emission; view-replay oracle on the real server (bounded)",
+        technique='contract-based deductive verification (PyVC + z3) of the notification kernel and the session side: per-session delivery contract of _dispatch_or_pend_notifications, call-site assertions on every EXPUNGE/EXISTS emission, pending_expunges / send_pending_notifications, Mailbox.selected / unselected, Authenticated.do_select and the gates of do_fetch / do_store / do_search (verified up to their queueing point); view-replay oracle on the real server (bounded)',
         category="other",
         text="Proved for all mailbox states and any number of sessions: _dispatch_or_pend_notifications gives every selected session except the excluded one exactly the notifications, in order, once - pushed if idling, otherwise appended behind what is already queued; "
              "every '* n EXPUNGE' expunge() emits carries n = position+1 of the message being removed in the list as it is at that moment (1 <= n <= size before removal), highest first, with the text equal to that number; "
              "after the recorded fix, check_new_msgs_and_flags announces a new EXISTS count directly only to sessions with an empty queue (or idling) and otherwise queues it behind the pending EXPUNGEs. Proved since: pending_expunges() is true exactly when ANY queued notification is an EXPUNGE; send_pending_notifications sends the whole queue in order and empties it; Mailbox.selected reports EXISTS == len(msg_keys) and registers the session in the same step (no await in between); Authenticated.do_select has an empty queue when that snapshot is taken (call-site assertion), reports exactly READ-ONLY/READ-WRITE, and leaves the session deselected when it fails. The gate in front of FETCH, STORE and SEARCH is proved on the real handlers (up to the point where they queue on the mailbox): a sequence-numbered command only starts when no EXPUNGE is queued for the session and has sent none on the way in; when it is refused with NO nothing is sent and nothing is dropped from the queue.",
-        note="Partial: the linking invariant between each session's replayed view and the server list across whole histories (DESIGN J), the pending_expunges() gates in do_fetch/do_store/do_search and selected() are not under contract; "
-             "the whole-history statement is covered only by the bounded view-replay oracle (156 scripted two-session histories).",
+        note="Partial: the linking invariant between each session's replayed view and the server list across whole histories (DESIGN J) is not a contract; the whole-history statement is covered only by the bounded view-replay oracle (259 scripted two-session histories incl. re-SELECT). Yields inside do_select are modelled without interference (a session that is registered in no mailbox receives no notifications). The bodies of FETCH/STORE/SEARCH behind the gate are abstracted.",
         assumptions=["z3 sound", "PyVC encoding (DESIGN 2.2)", "ClientProxy.push hands data to the socket in order (A-ASYNC)", "distinct sessions are distinct objects (class invariant clients-injective)"],
-        not_decided="view/list linking invariant over histories; gates for non-UID commands; IDLE/DONE",
+        not_decided='view/list linking invariant over whole histories (bounded replay only); IDLE/DONE',
     ),
     "C06": dict(
         design_ref="DESIGN.md 7 C06",
-        technique="contract-based deductive verification (PyVC + z3 string theory) of BaseClientHandler.command with every do_<command> handler abstracted by one assumed contract; end-to-end 'answered promptly' oracle (bounded)",
+        technique="contract-based deductive verification (PyVC + z3 string theory) of BaseClientHandler.command with every do_<command> handler abstracted by one assumed contract, of the release obligations in management_task and Mailbox.shutdown and of do_expunge's idling flag; end-to-end 'answered promptly' and per-connection-loop oracles (bounded)",
         category="other",
         text="BaseClientHandler.command is proved, for every handler outcome (None, False, a string, or No/Bad/TimeoutError/ConnectionResetError/any other exception) to push at most one line carrying the command's tag, after all untagged data, "
              "starting with '<tag> OK|NO|BAD ', ending in CRLF (after the recorded fix), and exactly one such line unless the handler defers its reply (IDLE). "
              "Mailbox.management_task's loop body is proved to release (ready.set) the command it dequeued on every path that ends an iteration - normal admission and the BAD for an unresolvable message set - "
              "Mailbox.shutdown to release every command still queued, and Authenticated.do_expunge to restore its pretend-idling flag on every exit, exceptional ones included. "
              "Recorded fixes removed the ways a command's outcome was produced by the 120 s watchdog (message set beyond the mailbox; \\Noselect mailbox after restart) or by an unhandled exception.",
-        note="Partial: handlers are abstracted (assumption: they push only untagged lines and return/raise as typed); in management_task the preconditions of the resync/pack callees are assumed at their call sites (environment E1) and "
-             "callee exceptions other than Bad between dequeue and release are not modelled; ready_and_okay, the proxy loop's BAD-and-continue and DONE are not under contract. Promptness beyond these wake-up obligations is covered only by the bounded oracle (45 commands x restart).",
+        note='Partial: handlers are abstracted (assumption: they push only untagged lines and return/raise as typed); in management_task the preconditions of the resync/pack callees are assumed at their call sites (environment E1) and callee exceptions other than Bad between dequeue and release are not modelled; ready_and_okay and DONE are not under contract. The per-connection loop (recorded fix F51: BAD then continue) is covered by a bounded oracle on the real loop, not by a contract. Promptness beyond these obligations is covered only by the bounded oracles.',
         assumptions=["z3/cvc5 sound", "PyVC encoding incl. level-1 strings (DESIGN 2.2)", "every do_<command> pushes only untagged lines (abstraction do_any)", "A-ASYNC"],
-        not_decided="liveness (wake-ups) beyond the bounded oracle; unparsable commands in the proxy loop",
+        not_decided='liveness (wake-ups) beyond the stated release obligations and the bounded oracles',
     ),
     "C07": dict(
         design_ref="DESIGN.md 7 C07",
@@ -175,19 +170,18 @@ PROPS = {
              "not proved - and enters the proofs as an assumed contract. encode_addrs, BODYSTRUCTURE, LIST/LSUB/STATUS formatting and parenthesis balance are not decided; DESIGN F18/F19 remain suspected.",
         assumptions=["z3/cvc5 sound", "PyVC level-1 string encoding; bytes modelled as the latin-1 text they decode to", "handlers push only untagged lines", "quote_string contract (bounded tier only)",
                      "A-EMAIL: Header(s).encode(...) yields encoded words that decode to s once folding CR/LF are removed"],
-        not_decided="(c) for address lists, BODYSTRUCTURE, LIST/LSUB/STATUS; (d) parentheses; (e) beyond ENVELOPE header strings",
+        not_decided='(c) for address lists, BODYSTRUCTURE and the STATUS attribute list; (d) parentheses; (e) beyond ENVELOPE header strings and LIST/LSUB/STATUS names',
     ),
     "C19": dict(
         design_ref="DESIGN.md 7 C19",
-        technique="contract-based deductive verification (PyVC + z3 strings) of the frame written to the user process (IMAPSubprocessInterface.message); the read loop IMAPClient.start is covered by an exhaustive bounded oracle against a reference tokenizer",
+        technique='contract-based deductive verification (PyVC + z3 strings) of the frame written to the user process (IMAPSubprocessInterface.message) and of the response relay msgs_to_client (loop invariant over a ghost stream); the read loop IMAPClient.start, the real relay and the per-connection loop are covered by bounded oracles',
         category="other",
         text="Proved: for every message, an authenticated session's message is forwarded as exactly '{<octet count>}\\n' followed by the message itself, one frame per message, and a session that is not authenticated forwards nothing "
              "(state gate, shared with C18 a). Bounded (exhaustive over 9 stream units up to 2-3 per stream x 3 segmentations, real asyncio.StreamReader): the read loop delivers exactly the commands the byte stream denotes, sends '+' exactly for "
              "synchronising literals, answers over-limit input with BAD and (after the recorded fix) stays in sync - the next command is no longer swallowed. Proved since: IMAPSubprocessInterface.msgs_to_client (after the recorded fix F50) writes to the IMAP client, piece by piece and in order, exactly what arrived from the user process - nothing altered, nothing skipped except possibly the one last piece whose write failed - for every sequence of arrivals (loop invariant over a ghost stream). Bounded since: the real relay (IMAPClient + get_and_connect_subprocess + msgs_to_client) against a stand-in user process on a loopback socket, literals with CRLF-free runs from 10 octets to 1 MB, written in one piece or in 1460/50000-octet pieces.",
-        note="The read loop itself (rstrip, $-anchored literal regex, int(), three size tests) is NOT under contract: the position-level refinement proof planned in DESIGN 7 C19 was not built; only bounded evidence covers clauses (a), (b). "
-             "De-framing in IMAPClientProxy.run and the response relay msgs_to_client are not decided.",
+        note='The read loop itself (rstrip, $-anchored literal regex, int(), three size tests) is NOT under contract: the position-level refinement proof planned in DESIGN 7 C19 was not built; only bounded evidence covers clauses (a), (b). De-framing in IMAPClientProxy.run is exercised by the proxy-loop oracle only.',
         assumptions=["z3 sound", "PyVC level-1 strings", "A-ASYNC StreamReader/Writer", "IMAPSubprocessInterface.unauthenticated never writes to a user process"],
-        not_decided="(a), (b) beyond the bounded oracle; (d) response relay",
+        not_decided='(a), (b) beyond the bounded oracle (the read loop itself is not under contract); de-framing in IMAPClientProxy.run',
     ),
     "C16": dict(
         design_ref="DESIGN.md 7 C16",
@@ -207,14 +201,13 @@ PROPS = {
         category="other",
         text="Proved: Mailbox.shutdown(commit_db=True) ends with the committed row equal to the in-memory (uid_vv, next_uid, uids, msg_keys, num_msgs, subscribed) and releases every queued command; "
              "Mailbox._restore_from_db, from any committed row written from an invariant state, restores exactly those values and rebuilds both index maps as exact inverses. Together: restore(persist(s)) == s on the UID state, for all states. Proved since: Mailbox.commit_to_db itself (the real body, over a ghost model of this mailbox's rows in both tables) leaves the committed rows equal to the UID state and to exactly the non-empty flag sequences; IMAPUserServer.shutdown shuts down every active mailbox and does so with commit_db left at its default True (call-site assertion), so an orderly shutdown commits every mailbox.",
-        note="Assumed, not proved: commit_to_db's SQL (contract: the row written decodes to the current state) and the fetch of the row (A-DB), with the column codec expand(compact(xs)) == xs checked exhaustively for all subsets of 0..12 (bounded). "
-             "Flags (sequences table), attributes and the mailbox list after restart are covered only by the bounded restart oracle (64 histories). The first-activation path (INSERT of a fresh row) is not under contract. The SQL statements of commit_to_db are assumed contracts pinned to their exact text (an edited statement leaves the verified subset and is then judged by the restart oracle only); reading the flag rows back in _restore_from_db is not tied to the ghost rows yet.",
+        note='Assumed, not proved: the SQL statements (each an assumed contract pinned to its exact text: an edited statement leaves the verified subset and is then judged by the restart oracle only) and the column codec expand(compact(xs)) == xs, checked exhaustively for all subsets of 0..12 (bounded). Attributes and the mailbox list after restart are covered only by the bounded restart oracle (81 histories). The first-activation path (INSERT of a fresh row) is not under contract.',
         assumptions=["z3 sound", "PyVC encoding", "A-DB: sqlite commit is atomic and durable; SELECT returns the committed row", "codec round trip (bounded)", "the row was committed from a state satisfying Inv(Mailbox)"],
-        not_decided="flags/attributes/list across restart beyond the bounded oracle; SPECIAL-USE re-creation",
+        not_decided='attributes, LIST/LSUB and SPECIAL-USE across restart beyond the bounded oracle',
     ),
     "C17": dict(
         design_ref="DESIGN.md 7 C17",
-        technique="contract-based deductive verification (PyVC + z3 strings) of the INBOX guard and name handling at the head of Mailbox.delete; namespace-invariant oracle on the real server over seeded histories (bounded)",
+        technique='contract-based deductive verification (PyVC + z3 strings) of the INBOX guard and name handling at the head of Mailbox.delete only; the rest is bounded: namespace-invariant oracle over seeded histories, subtree RENAME with content read back, LIST wildcards exhaustively against an RFC 3501 matcher',
         category="other",
         text="Proved for every name a client can send: Mailbox.delete never gets past its guard with a name that equals INBOX ignoring case, in any quoting (after the recorded fix; before it, DELETE \"INBOX\" emptied the inbox), "
              "and the name it then works with is confined (C09). Everything else the property says about LIST/LSUB following the CREATE/DELETE/RENAME/SUBSCRIBE history is checked only by the bounded oracle: after every step of 40-200 seeded histories "
@@ -234,14 +227,13 @@ PROPS = {
     ),
     "C08": dict(
         design_ref="DESIGN.md 7 C08",
-        technique="contract-based deductive verification (PyVC + z3) of exception safety at two places where non-BadCommand exceptions arose (parse() around _parse, _p_date around datetime.date); seeded grammar-mutation oracle for totality (bounded)",
+        technique="contract-based deductive verification (PyVC + z3/cvc5 strings) of the parser's exception safety (parse, _p_date), of _p_string (escapes decoded, literal by count), is_seq_num and _p_mailbox; bounded oracles: grammar-mutation fuzz for totality, exhaustive quoted/literal strings, fetch attributes against an independent reading, the real per-connection loop",
         category="other",
         text="Proved: IMAPClientCommand.parse lets nothing but BadCommand subclasses escape even when the recursive descent raises RecursionError (recorded fix), and _p_date turns every token that matches the date grammar but is not a calendar date "
              "into BadSyntax instead of ValueError (recorded fix; _p_date_time likewise, bounded only). The bounded oracle runs ~60 sentences covering every command and a few hundred to a few thousand seeded mutations through the real parser and "
              "demands that only BadCommand escapes. Proved since: _p_string decodes quoted-string escapes (result == unescape of exactly the quoted prefix; recorded fix F49) and takes a literal by its announced count, consuming exactly prefix + count characters; is_seq_num returns exactly the numeral's value, '*' for '*', None otherwise, and raises nothing (its SyntaxError branch is dead). Bounded since: every text over a 6-letter alphabet up to length 6 as quoted string and as literal; 274 fetch attributes (sections, partials, .PEEK, RFC822 forms, letter case) compared component-wise with an independent reading.",
-        note="Very partial: the ~70 _p_* functions are abstracted by one assumed contract; faithfulness of the produced AST (escapes, literals, INBOX exactness, sections, sets) and whole-grammar agreement with RFC 3501 are NOT decided "
-             "(DESIGN F21, F23 remain suspected). Known finding F20: trailing data after a complete command is ignored (pinned by the repository's own tests).",
+        note="Partial: apart from _p_mailbox, _p_date, _p_string and is_seq_num the ~65 _p_* functions are abstracted by one assumed contract; whole-grammar agreement with RFC 3501 is decided only on the bounded corpora. Known finding F20: trailing data after a complete command is ignored (pinned by the repository's own tests). Observation O2 (DESIGN 12.4): SEARCH UNDRAFT is refused; BODY[1.] and SEARCH () are accepted.",
         assumptions=["z3 sound", "PyVC encoding", "_p_* functions raise only BadCommand subclasses or RecursionError (bounded evidence)", "A-RE/datetime contracts as listed"],
-        not_decided="(b) (known finding F20), (c), (d), (e), (f)",
+        not_decided='(b) (known finding F20); the remaining ~65 _p_* functions are covered by the bounded oracles only (flags, sections, search keys, date-times)',
     ),
 }
